@@ -583,7 +583,8 @@ class _MissingImportFinder:
         finally:
             logger.debug("throwing last scope from scopestack: %r", new_scopestack[-1])
             for name, use_checker in new_scopestack[-1].items():
-                if use_checker and use_checker.used == False and check_unused_imports:
+                if (use_checker and use_checker.used == False and check_unused_imports
+                    and use_checker.name == name):
                     logger.debug(
                         "unused checker %r scopestack_depth %r",
                         use_checker,
@@ -962,10 +963,6 @@ class _MissingImportFinder:
         if is_star:
             logger.debug("Got star import: line %s: 'from %s import *'",
                          self._lineno, modulename)
-        if not node.asname and not is_star:
-            # Handle leading prefixes so we don't think they're unused
-            for prefix in DottedIdentifier(node.name).prefixes[:-1]:
-                self._visit_Store(str(prefix), None)
         if self.unused_imports is None or is_star or modulename == "__future__":
             value = None
         else:
@@ -973,7 +970,16 @@ class _MissingImportFinder:
             logger.debug("_visit_StoreImport(): imp = %r", imp)
             # Keep track of whether we've used this import.
             value = _UseChecker(name, imp, self._lineno)
+        if not node.asname and not is_star:
+            # 'import a.b.c' binds 'a': reading anything through a leading
+            # prefix ('a.x', 'a.b.y') uses this import too.
+            for prefix in DottedIdentifier(node.name).prefixes[:-1]:
+                self._visit_Store(str(prefix), value)
         self._visit_Store(name, value)
+        if value is not None:
+            # Storing 'a.b.c' looked up the prefixes stored just above; that
+            # is not a use of the import.
+            value.used = False
 
     def _visit_Store(self, fullname: str, value: Optional[_UseChecker] = None):
         """
@@ -1000,7 +1006,8 @@ class _MissingImportFinder:
             # If we're redefining something, and it has not been used, then
             # record it as unused.
             oldvalue = scope.get(fullname)
-            if isinstance(oldvalue, _UseChecker) and not oldvalue.used:
+            if (isinstance(oldvalue, _UseChecker) and not oldvalue.used
+                and oldvalue.name == fullname):
                 logger.debug("Adding to unused %s", oldvalue)
                 self.unused_imports.append((oldvalue.lineno, oldvalue.source))
         scope[fullname] = value
@@ -1137,6 +1144,10 @@ class _MissingImportFinder:
             if not isinstance(value, _UseChecker):
                 continue
             if value.used:
+                continue
+            if value.name != name:
+                # A leading prefix of a dotted import; the import is listed
+                # under its own name.
                 continue
             logger.debug("Also Adding to usunsed import: %s ", value)
             unused_imports.append(( value.lineno, value.source ))
